@@ -363,3 +363,225 @@ contract('Environments.DiscreteWorld.get_cell',
          ensures={'C09': [get_cell_post]},
          raises={'IndexError': dict(when=get_cell_outside)},
          modifies=['new:obj:Row'], native=False, props=['C09'])
+
+
+# ------------------------------------------------------------------------------------------------ C10 neighbourhoods
+def in_grid(x, y, z, W, H, D):
+    return 0 <= x and x < max(W, 1) and 0 <= y and y < max(H, 1) and 0 <= z and z < max(D, 1)
+
+
+def cheb(x, y, z, cx, cy, cz):
+    return max(max(abs(x - cx), abs(y - cy)), abs(z - cz))
+
+
+def manh(x, y, z, cx, cy, cz):
+    return abs(x - cx) + abs(y - cy) + abs(z - cz)
+
+
+def in_moore(self, x, y, z, cx, cy, cz, radius, incl):
+    return (in_grid(x, y, z, self.width, self.height, self.depth) and cheb(x, y, z, cx, cy, cz) <= radius
+            and (incl or not (x == cx and y == cy and z == cz)))
+
+
+def in_neumann(self, x, y, z, cx, cy, cz, radius, incl):
+    return (in_grid(x, y, z, self.width, self.height, self.depth) and manh(x, y, z, cx, cy, cz) <= radius
+            and (incl or not (x == cx and y == cy and z == cz)))
+
+
+def lex_less(a, b):
+    """Ascending cell order: z major, then y, then x."""
+    return a[2] < b[2] or (a[2] == b[2] and (a[1] < b[1] or (a[1] == b[1] and a[0] < b[0])))
+
+
+def centre_ok(self, cell_pos, radius):
+    return radius >= 0 and in_grid(cell_pos[0], cell_pos[1], cell_pos[2], self.width, self.height, self.depth)
+
+
+def is_tuple_ret(self, cell_pos, radius, incl_center, ret_type):
+    return ret_type is tuple
+
+
+def is_int_ret(self, cell_pos, radius, incl_center, ret_type):
+    return ret_type is int
+
+
+def moore_tuple_post(self, cell_pos, radius, incl_center, ret_type, result, old):
+    cx = cell_pos[0]
+    cy = cell_pos[1]
+    cz = cell_pos[2]
+    return (is_fresh(result, old)
+            and all(in_moore(self, result[i][0], result[i][1], result[i][2], cx, cy, cz, radius, incl_center)
+                    for i in range(len(result)))
+            and all(lex_less(result[i], result[j]) for i in range(len(result)) for j in range(i + 1, len(result)))
+            and all(index_of(result, (x, y, z)) < len(result)
+                    for z in range(max(self.depth, 1)) for y in range(max(self.height, 1))
+                    for x in range(max(self.width, 1)) if in_moore(self, x, y, z, cx, cy, cz, radius, incl_center)))
+
+
+def neumann_tuple_post(self, cell_pos, radius, incl_center, ret_type, result, old):
+    cx = cell_pos[0]
+    cy = cell_pos[1]
+    cz = cell_pos[2]
+    return (is_fresh(result, old)
+            and all(in_neumann(self, result[i][0], result[i][1], result[i][2], cx, cy, cz, radius, incl_center)
+                    for i in range(len(result)))
+            and all(lex_less(result[i], result[j]) for i in range(len(result)) for j in range(i + 1, len(result)))
+            and all(index_of(result, (x, y, z)) < len(result)
+                    for z in range(max(self.depth, 1)) for y in range(max(self.height, 1))
+                    for x in range(max(self.width, 1)) if in_neumann(self, x, y, z, cx, cy, cz, radius, incl_center)))
+
+
+NBR_PARAMS = {'self': 'ref:DiscreteWorld', 'cell_pos': 'tuple[int,int,int]', 'radius': 'int', 'incl_center': 'bool',
+              'ret_type': 'cls'}
+
+contract('Environments.DiscreteWorld.get_moore_neighbours', variant='tuple',
+         params=NBR_PARAMS, returns='list[tuple[int,int,int]]',
+         requires=[grid_world, centre_ok, is_tuple_ret],
+         ensures={'C10': [moore_tuple_post]},
+         modifies=['new:list[tuple[int,int,int]]'],
+         locals={'neighbours': 'list[tuple[int,int,int]]'}, native=False, props=['C10'])
+contract('Environments.DiscreteWorld.get_neumann_neighbours', variant='tuple',
+         params=NBR_PARAMS, returns='list[tuple[int,int,int]]',
+         requires=[grid_world, centre_ok, is_tuple_ret],
+         ensures={'C10': [neumann_tuple_post]},
+         modifies=['new:list[tuple[int,int,int]]'],
+         locals={'neighbours': 'list[tuple[int,int,int]]'}, native=False, props=['C10'])
+from pyvc.specs import origin, by_lemma   # noqa: E402
+
+
+def id_monotone(x, y, z, x2, y2, z2, W, H, D):
+    """Ids increase with the ascending cell order (z major, then y, then x) on in-grid coordinates."""
+    return implies(in_grid(x, y, z, W, H, D) and in_grid(x2, y2, z2, W, H, D) and W >= 0 and H >= 0 and D >= 0
+                   and (z < z2 or (z == z2 and (y < y2 or (y == y2 and x < x2)))),
+                   cell_id(x, y, z, W, H) < cell_id(x2, y2, z2, W, H))
+
+
+lemma('cell_id_monotone', ['C10'], id_monotone,
+      params={'x': 'int', 'y': 'int', 'z': 'int', 'x2': 'int', 'y2': 'int', 'z2': 'int', 'W': 'int', 'H': 'int',
+              'D': 'int'})
+
+
+def moore_int_post(self, cell_pos, radius, incl_center, ret_type, result, old):
+    """id form: every element is the id of an in-ball cell (source witness of the scan), ascending, complete."""
+    cx = cell_pos[0]
+    cy = cell_pos[1]
+    cz = cell_pos[2]
+    W = self.width
+    H = self.height
+    return (is_fresh(result, old)
+            and all(in_moore(self, origin(result, i)[2], origin(result, i)[1], origin(result, i)[0], cx, cy, cz, radius,
+                             incl_center)
+                    and result[i] == cell_id(origin(result, i)[2], origin(result, i)[1], origin(result, i)[0], W, H)
+                    for i in range(len(result)))
+            and all(by_lemma(id_monotone, origin(result, i)[2], origin(result, i)[1], origin(result, i)[0],
+                             origin(result, j)[2], origin(result, j)[1], origin(result, j)[0], W, H, self.depth)
+                    for i in range(len(result)) for j in range(i + 1, len(result)))
+            and all(result[i] < result[j] for i in range(len(result)) for j in range(i + 1, len(result)))
+            and all(index_of(result, cell_id(x, y, z, W, H)) < len(result)
+                    for z in range(max(self.depth, 1)) for y in range(max(self.height, 1))
+                    for x in range(max(self.width, 1)) if in_moore(self, x, y, z, cx, cy, cz, radius, incl_center)))
+
+
+def neumann_int_post(self, cell_pos, radius, incl_center, ret_type, result, old):
+    cx = cell_pos[0]
+    cy = cell_pos[1]
+    cz = cell_pos[2]
+    W = self.width
+    H = self.height
+    return (is_fresh(result, old)
+            and all(in_neumann(self, origin(result, i)[2], origin(result, i)[1], origin(result, i)[0], cx, cy, cz,
+                               radius, incl_center)
+                    and result[i] == cell_id(origin(result, i)[2], origin(result, i)[1], origin(result, i)[0], W, H)
+                    for i in range(len(result)))
+            and all(by_lemma(id_monotone, origin(result, i)[2], origin(result, i)[1], origin(result, i)[0],
+                             origin(result, j)[2], origin(result, j)[1], origin(result, j)[0], W, H, self.depth)
+                    for i in range(len(result)) for j in range(i + 1, len(result)))
+            and all(result[i] < result[j] for i in range(len(result)) for j in range(i + 1, len(result)))
+            and all(index_of(result, cell_id(x, y, z, W, H)) < len(result)
+                    for z in range(max(self.depth, 1)) for y in range(max(self.height, 1))
+                    for x in range(max(self.width, 1)) if in_neumann(self, x, y, z, cx, cy, cz, radius, incl_center)))
+
+
+contract('Environments.DiscreteWorld.get_moore_neighbours', variant='int',
+         params=NBR_PARAMS, returns='list[int]',
+         requires=[grid_world, centre_ok, is_int_ret],
+         ensures={'C10': [moore_int_post]},
+         modifies=['new:list[int]'],
+         locals={'neighbours': 'list[int]'}, native=False, props=['C10'])
+contract('Environments.DiscreteWorld.get_neumann_neighbours', variant='int',
+         params=NBR_PARAMS, returns='list[int]',
+         requires=[grid_world, centre_ok, is_int_ret],
+         ensures={'C10': [neumann_int_post]},
+         modifies=['new:list[int]'],
+         locals={'neighbours': 'list[int]'}, native=False, props=['C10'])
+
+
+def as_tuple_int_post(self, cell_pos, result):
+    """Cell id -> that cell's coordinates through the position table."""
+    return result == self.cells.pos[cell_pos]
+
+
+def id_in_table(self, cell_pos):
+    return 0 <= cell_pos and cell_pos < len(self.cells.pos)
+
+
+contract('Environments.DiscreteWorld._get_cell_pos_as_tuple', variant='id',
+         params={'self': 'ref:DiscreteWorld', 'cell_pos': 'int'}, returns='tuple[int,int,int]',
+         requires=[id_in_table], ensures={'C10': [as_tuple_int_post]}, native=False, props=['C10'])
+
+
+def as_tuple_tuple_post(self, cell_pos, result):
+    return result == cell_pos
+
+
+contract('Environments.DiscreteWorld._get_cell_pos_as_tuple', variant='tuple',
+         params={'self': 'ref:DiscreteWorld', 'cell_pos': 'tuple[int,int,int]'}, returns='tuple[int,int,int]',
+         ensures={'C10': [as_tuple_tuple_post]}, native=False, props=['C10'])
+
+
+def as_tuple_comp_post(self, cell_pos, result):
+    """Position component -> the cell containing it (truncation = floor for the non-negative in-grid positions)."""
+    return (implies(cell_pos.x >= 0, result[0] <= cell_pos.x and cell_pos.x < result[0] + 1)
+            and implies(cell_pos.y >= 0, result[1] <= cell_pos.y and cell_pos.y < result[1] + 1)
+            and implies(cell_pos.z >= 0, result[2] <= cell_pos.z and cell_pos.z < result[2] + 1))
+
+
+contract('Environments.DiscreteWorld._get_cell_pos_as_tuple', variant='component',
+         params={'self': 'ref:DiscreteWorld', 'cell_pos': 'ref:PositionComponent'}, returns='tuple[int,int,int]',
+         ensures={'C10': [as_tuple_comp_post]}, modes=['real'], native=False, props=['C10'])
+
+
+def mode_moore(self, cell_pos, radius, incl_center, ret_type, mode):
+    return mode == 'moore' and ret_type is tuple
+
+
+def mode_neumann(self, cell_pos, radius, incl_center, ret_type, mode):
+    return mode == 'neumann' and ret_type is tuple
+
+
+def mode_other(self, cell_pos, radius, incl_center, ret_type, mode, old):
+    return mode != 'moore' and mode != 'neumann'
+
+
+def nbr_centre_ok(self, cell_pos, radius, incl_center, ret_type, mode):
+    return centre_ok(self, cell_pos, radius) and grid_world(self)
+
+
+def generic_moore_post(self, cell_pos, radius, incl_center, ret_type, mode, result, old):
+    return implies(mode == 'moore', moore_tuple_post(self, cell_pos, radius, incl_center, ret_type, result, old))
+
+
+def generic_neumann_post(self, cell_pos, radius, incl_center, ret_type, mode, result, old):
+    return implies(mode == 'neumann', neumann_tuple_post(self, cell_pos, radius, incl_center, ret_type, result, old))
+
+
+def ret_is_tuple(self, cell_pos, radius, incl_center, ret_type, mode):
+    return ret_type is tuple
+
+
+contract('Environments.DiscreteWorld.get_neighbours',
+         params=dict(NBR_PARAMS, mode='str'), returns='list[tuple[int,int,int]]',
+         requires=[nbr_centre_ok, ret_is_tuple],
+         ensures={'C10': [generic_moore_post, generic_neumann_post]},
+         raises={'KeyError': dict(when=mode_other)},
+         modifies=['new:list[tuple[int,int,int]]'], view='tuple', native=False, props=['C10'])
